@@ -35,29 +35,62 @@ def run(ctx):
     R.clause('c', 'only manifest-listed files are moved')
     R.clause('d', 'archives with unvouched entries are unpacked where the result is verified or cleaned as a whole')
 
-    # ---- (a)
-    f = ctx.try_fn('a', DT + 'download_unpack_verify_ancillary')
-    if f is not None:
-        lf = f.logic()
-        DU = [DT + 'download_unpack_file']
-        ctx.order('a', f, ('download_unpack_file', DU), ('AncillaryVerifier::verify', [VER]))
-        ctx.order('a', f, ('AncillaryVerifier::verify', [VER]), ('move_to_final_location', [MOVE]))
-        body = lf.body
-        for c in ctx.call_sites(body, DU):
-            if has(fn_origins(lf, c.args[1], 'adapters'), 'p#2') and not has(fn_origins(lf, c.args[1], 'adapters'), 'p#3'):
-                R.ok('a', 'R5', 'ancillary archive is unpacked into the temporary directory (not the target)', '', f.loc())
-            else:
-                R.violation('a', 'R5', 'ancillary archive is unpacked into the temporary directory (not the target)', 'ancillary:unpack-dir', '', f.loc())
-        for c in ctx.call_sites(body, [VER]):
-            if has(fn_origins(lf, c.args[1], 'adapters'), 'p#2') and has(fn_origins(lf, c.args[0], True), 'p#4'):
-                R.ok('a', 'R5', 'the verifier checks the temporary directory with the configured verifier', '', f.loc())
-            else:
-                R.violation('a', 'R5', 'the verifier checks the temporary directory with the configured verifier', 'ancillary:verify-args', '', f.loc())
-        for c in ctx.call_sites(body, [MOVE]):
-            if has(fn_origins(lf, c.args[0], True), 'call:' + VER) and has(fn_origins(lf, c.args[1], 'adapters'), 'p#3'):
-                R.ok('a', 'R5', 'the moved manifest is the validated one; destination is the target directory', '', f.loc())
-            else:
-                R.violation('a', 'R5', 'the moved manifest is the validated one; destination is the target directory', 'ancillary:move-args', '', f.loc())
+    # ---- (a)  layout-independent: the three steps may live in one function or be spread over helpers
+    from props.common import deep_origins
+    DU = [DT + 'download_unpack_file']
+    TMP = 'call:*temp_ancillary_target_dir'
+    lib = [x for x in ws.fns if x.unit.crate == 'mithril_client' and x.unit.tag == 'lib']
+    ver_sites = [(g, c) for g in lib for c in g.body.calls() if VER in c.names()]
+    move_sites = [(g, c) for g in lib for c in g.body.calls() if MOVE in c.names()]
+    if not ver_sites:
+        R.missing('a', 'no call of AncillaryVerifier::verify in mithril-client')
+    if not move_sites:
+        R.missing('a', 'no call of ValidatedAncillaryManifest::move_to_final_location in mithril-client')
+    # the ancillary unpack sites: download_unpack_file calls in a body (family) that also verifies
+    fam_of_ver = set()
+    for g, c in ver_sites:
+        fam_of_ver |= {id(x) for x in g.root().family()}
+    unpack_sites = [(g, c) for g in lib for c in g.body.calls() if any(n in c.names() for n in DU) and id(g) in fam_of_ver]
+    inst = 'ancillary archive is unpacked into the temporary directory (not the target)'
+    if not unpack_sites:
+        R.violation('a', 'R5', inst, 'ancillary:unpack-dir', 'no download_unpack_file call next to the verification', None)
+    else:
+        bad = [c.line for g, c in unpack_sites if not has(deep_origins(ws, g, c.args[2] if len(c.args) > 2 else c.args[-1], True, depth=2), TMP)
+               and not any(has(deep_origins(ws, g, a, True, depth=2), TMP) for a in c.args)]
+        tgt = [c.line for g, c in unpack_sites if any(has(deep_origins(ws, g, a, 'adapters', depth=2), 'pty:DownloadTask.target_dir') and
+                                                       not has(deep_origins(ws, g, a, 'adapters', depth=2), TMP) for a in c.args[1:])]
+        if bad or tgt:
+            R.violation('a', 'R5', inst, 'ancillary:unpack-dir', 'unpack sites not into the temp dir: %s; into the target dir: %s' % (bad, tgt), unpack_sites[0][0].loc())
+        else:
+            R.ok('a', 'R5', inst, '%d site(s)' % len(unpack_sites), unpack_sites[0][0].loc())
+    inst = 'the verifier checks the temporary directory with the configured verifier'
+    if ver_sites:
+        bad = []
+        for g, c in ver_sites:
+            d = deep_origins(ws, g, c.args[1], True, depth=2)
+            v = deep_origins(ws, g, c.args[0], True, depth=2)
+            if not has(d, TMP) or not has(v, 'pty:DownloadTask.kind*'):
+                bad.append(c.line)
+        if bad:
+            R.violation('a', 'R5', inst, 'ancillary:verify-args', 'verify sites at lines %s' % bad, ver_sites[0][0].loc())
+        else:
+            R.ok('a', 'R5', inst, '%d site(s)' % len(ver_sites), ver_sites[0][0].loc())
+    inst = 'the moved manifest is the validated one; destination is the target directory'
+    if move_sites:
+        bad = []
+        for g, c in move_sites:
+            recv_ty = g.body.lty(c.args[0][1][0]) if c.args[0][0] in ('copy', 'move') else ''
+            d = deep_origins(ws, g, c.args[1], 'adapters', depth=2)
+            if 'ValidatedAncillaryManifest' not in recv_ty or has(d, TMP) or not (has(d, 'pty:DownloadTask.target_dir*') or has(d, 'pty:*.target_dir*')):
+                bad.append(c.line)
+        if bad:
+            R.violation('a', 'R5', inst, 'ancillary:move-args', 'move sites at lines %s' % bad, move_sites[0][0].loc())
+        else:
+            R.ok('a', 'R5', inst, '%d site(s); the receiver type can only be produced by verify (clause b)' % len(move_sites), move_sites[0][0].loc())
+    # order inside each body that holds both an unpack and a verify: unpack (success) precedes verify
+    for rootname in sorted({g.root().name for g, c in ver_sites}):
+        rf = ws.find(rootname)
+        ctx.order('a', rf, ('download_unpack_file', DU), ('AncillaryVerifier::verify', [VER]))
     bf = ctx.try_fn('a', DT + 'build_download_future')
     if bf is not None:
         # the coroutine holding the logic
@@ -206,3 +239,48 @@ def run(ctx):
                     R.ok('d', 'R5', inst, '', bf.loc())
         if not found:
             R.violation('d', 'R5', 'immutable archives: the unpack site exists', 'immutable:unpack-site', 'no download_unpack_file call in build_download_future', bf.loc())
+
+
+# ---------------------------------------------------------------- added after seed C19-2
+BOOT = 'mithril_client::utils::bootstrap_files::create_bootstrap_node_files'
+IAD = 'mithril_client::cardano_database_client::download_unpack::internal_downloader::InternalArtifactDownloader::'
+FS_PROBES = ['std::path::Path::exists', 'std::path::Path::try_exists', 'std::path::Path::is_file', 'std::path::Path::is_dir', 'std::path::Path::metadata',
+             'std::path::Path::symlink_metadata', 'std::fs::metadata', 'std::fs::symlink_metadata', 'std::fs::exists', 'std::fs::OpenOptions::create_new',
+             'std::fs::read*', 'std::fs::File::open', 'std::fs::File::create_new', 'tokio::fs::*metadata*', 'tokio::fs::try_exists*']
+
+
+def _bootstrap_rules(ctx):
+    R = ctx.report
+    ws = ctx.ws
+    R.clause('e', 'the client\'s bootstrap markers are rewritten after all archives were unpacked (an archive entry cannot shadow them)')
+    f = ctx.try_fn('e', BOOT)
+    if f is not None:
+        creates, probes, writes = [], [], []
+        for g in f.family():
+            for c in g.body.calls():
+                if any(glob_match('std::fs::File::create', n) for n in c.names()):
+                    creates.append(c)
+                if any(glob_match(p, n) for n in c.names() for p in FS_PROBES):
+                    probes.append('%s:%s' % (fn_short(c.best()), c.line))
+                if any(glob_match('*::Write::write_all', n) or glob_match('*::write_all', n) for n in c.names()):
+                    writes.append((g, c))
+        inst = 'create_bootstrap_node_files truncates and rewrites the markers whatever the directory already holds'
+        magic = any(has(fn_origins(g, c.args[1], True), 'call:*CardanoNetwork::magic_id') for g, c in writes)
+        if len(creates) >= 2 and not probes and magic:
+            R.ok('e', 'R5', inst, '%d File::create sites, content <- CardanoNetwork::magic_id' % len(creates), f.loc())
+        else:
+            R.violation('e', 'R5', inst, 'bootstrap:unconditional', 'File::create sites %d, file-system probes gating them: %s, content from magic_id: %s - a marker that an '
+                        'archive placed in the database directory would survive the restoration' % (len(creates), probes[:3], magic), f.loc())
+    d = ctx.try_fn('e', IAD + 'download_unpack')
+    if d is not None:
+        ctx.order('e', d, ('batch_download_unpack', [IAD + 'batch_download_unpack']), ('create_bootstrap_node_files', [BOOT]),
+                  desc='download_unpack: all archives unpacked (successfully) before the bootstrap markers are written')
+        ctx.arg_origin('e', d, BOOT, 1, require=['p#*'], desc='(db dir) <- the target directory of the download')
+
+
+_run_c19 = run
+
+
+def run(ctx):  # noqa: F811
+    _run_c19(ctx)
+    _bootstrap_rules(ctx)
